@@ -68,6 +68,7 @@ type Link struct {
 	nWritten int
 	nAttempts int
 	nRead    int
+	nReadBase int // nRead when the tap was last cleared (long histories)
 	Tap      []TapEv
 
 	// hooks, called with l.mu released
@@ -84,8 +85,17 @@ var ErrInjected = errors.New("sim: injected transport failure")
 
 // InjectedErr returns one of the errors real transports report when a
 // connection ends (a clean close is io.EOF for framed pipes, wrapped or not).
+const NumInjectedErrs = 9
+
 func InjectedErr(k int) error {
-	switch k % 6 {
+	switch k % NumInjectedErrs {
+	case 6:
+		// a transport with a session context of its own reports that context's end
+		return context.Canceled
+	case 7:
+		return fmt.Errorf("session closed: %w", context.Canceled)
+	case 8:
+		return context.DeadlineExceeded
 	case 0:
 		return ErrInjected
 	case 1:
@@ -459,4 +469,49 @@ func (e *Env) DrawLinkCfg() LinkCfg {
 	c.Serialise = e.Gen.IntN(2) == 0
 	c.Strict = e.Gen.IntN(2) == 0
 	return c
+}
+
+// ReadEnvelopes returns copies of the envelopes that were handed to the
+// link's reader so far (the link is FIFO: the first nRead tap entries that
+// were neither withdrawn nor lost).
+func (l *Link) ReadEnvelopes() []*Rpc {
+	l.mu.Lock()
+	defer l.mu.Unlock()
+	var out []*Rpc
+	for _, tp := range l.Tap {
+		if len(out) >= l.nRead-l.nReadBase {
+			break
+		}
+		if tp.Withdrawn || tp.Lost {
+			continue
+		}
+		out = append(out, tp.Rpc)
+	}
+	return out
+}
+
+// serverReadCall: did any Serve of the net read an envelope that carries the call's tag?
+func serverReadCall(n *Net, id int) bool {
+	if n == nil {
+		return false
+	}
+	for _, sr := range n.Serves {
+		if sr == nil || sr.ServerEnd == nil {
+			continue
+		}
+		for _, r := range sr.ServerEnd.In.ReadEnvelopes() {
+			if callOfEnvelope(r) == id {
+				return true
+			}
+		}
+	}
+	return false
+}
+
+// ClearTap forgets the recorded envelopes (long histories); call only at a quiescent point.
+func (l *Link) ClearTap() {
+	l.mu.Lock()
+	l.Tap = l.Tap[:0]
+	l.nReadBase = l.nRead
+	l.mu.Unlock()
 }
